@@ -72,7 +72,12 @@ def make_schema(r, i):
             {"name": "Get", "id": 0, "input": structs[0], "output": structs[-1]},
             {"name": "Put", "id": 1, "input": structs[-1], "output": structs[-1]},
         ][: r.randint(1, 2)]})
-        decls.append({"kind": "device", "name": "dev%d" % i, "fields": [("services", [("id", "Svc%d" % i)])]})
+        # further services (their ids and names end up in one synthesized enum)
+        extra = []
+        for k in range(r.randint(0, 3)):
+            extra.append("Aux%d_%s" % (i, "abcd"[k]))
+            decls.append({"kind": "service", "name": extra[-1], "id": 201 + k, "methods": [{"name": "Do", "id": k, "input": structs[0], "output": structs[0]}]})
+        decls.append({"kind": "device", "name": "dev%d" % i, "fields": [("services", [("id", n) for n in ["Svc%d" % i] + extra])]})
     return decls
 
 
